@@ -833,10 +833,16 @@ func (fx *FuncCtx) buildQuery(hyps []Term, goal Term) string {
 		b.WriteString(h.S)
 		b.WriteString(")\n")
 	}
+	if len(extra) > 0 {
+		b.WriteString(extraBegin)
+	}
 	for _, h := range extra {
 		b.WriteString("(assert ")
 		b.WriteString(h)
 		b.WriteString(")\n")
+	}
+	if len(extra) > 0 {
+		b.WriteString(extraEnd)
 	}
 	if len(fx.recInfos) > 0 {
 		var tb strings.Builder
